@@ -267,12 +267,21 @@ Error String::_op_string(ModifyOp op, const char* str, size_t size) noexcept {
     return op == ModifyOp::kAssign ? clear() : Error::kOk;
   }
 
+  // Appending (a part of) the string to itself - `prepare()` may move the buffer, the old content is preserved.
+  const char* cur = data();
+  bool aliased = op == ModifyOp::kAppend && str >= cur && str <= cur + this->size();
+  size_t alias_offset = aliased ? size_t(str - cur) : size_t(0);
+
   char* p = prepare(op, size);
   if (!p) {
     return make_error(Error::kOutOfMemory);
   }
 
-  memcpy(p, str, size);
+  if (aliased) {
+    str = data() + alias_offset;
+  }
+
+  memmove(p, str, size);
   return Error::kOk;
 }
 
